@@ -75,3 +75,16 @@ def velocity_dispatch(msg, source):
         assert o == outcome(adsb_spec.airborne_velocity_opaque, msg, source), "velocity routes TC19 to airborne_velocity"
     else:
         assert o == ("raise", "RuntimeError"), "velocity rejects every other type code"
+
+
+@harness(("C09", "C14"), inputs={"msg": HexStr(28)}, functions=[A + "speed_heading"], body_of=[A + "speed_heading"])
+def speed_heading_body(msg):
+    # speed_heading is velocity() cut to (speed, angle): same outcome class, None when velocity() has none
+    ov = outcome(ADSB.velocity, msg)
+    o = outcome(ADSB.speed_heading, msg)
+    if ov[0] == "raise":
+        assert o == ov, "speed_heading rejects what velocity rejects"
+    elif ov[1] is None:
+        assert o == ("ret", None), "speed_heading is None when no velocity is available"
+    else:
+        assert o[0] == "ret" and o[1][0] == ov[1][0] and o[1][1] == ov[1][1], "speed_heading == first two components of velocity"
